@@ -33,7 +33,7 @@ def _kf_static(spec, problems):
     for p in problems:
         if p.get("kind") == "unbound-read":
             n = p.get("name")
-            if not (kf.kf5_unbound_level_size(spec, n) or kf.kf7_unbound_offset(spec, n)):
+            if not kf.name_kf(spec, n):
                 return None
         else:
             return None
